@@ -1,4 +1,3 @@
-from .utils import is_zero
 from .qty import eval_qty
 
 
@@ -32,8 +31,8 @@ def with_units(number, units):
     """
     if number is None:
         return None
-    if is_zero(number):
-        return number
+    # (zero is a quantity like any other: handing back a bare 0 here made
+    # e.g. a range starting at 0 K unformattable)
     return number*eval_qty(units)
 
 
